@@ -204,7 +204,7 @@ Definition takes_part (s : state) (g : gauge) : Prop :=
   In g (s_gauges s) /\
   (0 < cnt_all (s_act s) (g_id g) \/ (0 < cnt_all (s_up s) (g_id g) /\ g_start g <= s_now s)).
 
-Lemma epoch_spec : forall cfg thr s s', Inv s -> after_epoch_end cfg thr s = Ok s' ->
+Lemma epoch_spec_plus : forall cfg thr s s', Inv s -> after_epoch_end cfg thr s = Ok s' ->
   exists ups acts,
     s_now s' = s_now s /\ s_locks s' = s_locks s /\ s_last_gauge s' = s_last_gauge s /\
     s_last_lock s' = s_last_lock s /\ s_routable s' = s_routable s /\
@@ -221,7 +221,9 @@ Lemma epoch_spec : forall cfg thr s s', Inv s -> after_epoch_end cfg thr s = Ok 
     (forall g, In g acts -> exists di0 cache0 w di1 cache1,
         distribute_internal cfg thr g (elig (s_locks s) g) di0 cache0 = Ok (w, di1, cache1) /\
         get_gauge (s_gauges s') (g_id g) = Some (match w with Some g' => g' | None => g end)) /\
-    (forall d, s_bank s' MODULE d - sum_rem (s_gauges s') d = s_bank s MODULE d - sum_rem (s_gauges s) d).
+    (forall d, s_bank s' MODULE d - sum_rem (s_gauges s') d = s_bank s MODULE d - sum_rem (s_gauges s) d) /\
+    exists di, distribute_loop cfg thr (s_locks s) acts (s_gauges s) [] [] [] = Ok (s_gauges s', di) /\
+               do_sends (s_bank s) di = Some (s_bank s').
 Proof.
   intros cfg thr s s' I H. unfold after_epoch_end in H.
   destruct (gauges_of (s_gauges s) (refs_all (s_up s))) as [ups|] eqn:GU; [|discriminate].
@@ -278,7 +280,32 @@ Proof.
   split; [exact Hups|]. split; [exact Hacts|].
   split. { intros x. destruct (Cm x), (Cf x). repeat split; lia. }
   split; [exact L1|]. split; [exact L4|]. split; [exact L3|]. split; [exact L5|].
-  intros d. rewrite (do_sends_module _ _ _ DS d). specialize (L2 d). cbn [di_sum] in L2. lia.
+  split; [intros d; rewrite (do_sends_module _ _ _ DS d); specialize (L2 d); cbn [di_sum] in L2; lia|].
+  exists di. split; [exact DL|exact DS].
+Qed.
+
+Lemma epoch_spec : forall cfg thr s s', Inv s -> after_epoch_end cfg thr s = Ok s' ->
+  exists ups acts,
+    s_now s' = s_now s /\ s_locks s' = s_locks s /\ s_last_gauge s' = s_last_gauge s /\
+    s_last_lock s' = s_last_lock s /\ s_routable s' = s_routable s /\
+    refs_sorted (s_up s') /\ refs_sorted (s_act s') /\ refs_sorted (s_fin s') /\
+    NoDup (map g_id acts) /\
+    (forall g, In g ups <-> In g (s_gauges s) /\ 0 < cnt_all (s_up s) (g_id g)) /\
+    (forall g, In g acts <-> takes_part s g) /\
+    (forall x, cnt_all (s_up s') x = cnt_all (s_up s) x - moved (s_now s) ups x /\
+               cnt_all (s_act s') x = cnt_all (s_act s) x + moved (s_now s) ups x - finm acts x /\
+               cnt_all (s_fin s') x = cnt_all (s_fin s) x + finm acts x) /\
+    Forall gauge_ok (s_gauges s') /\
+    map g_id (s_gauges s') = map g_id (s_gauges s) /\
+    (forall id, ~ In id (map g_id acts) -> get_gauge (s_gauges s') id = get_gauge (s_gauges s) id) /\
+    (forall g, In g acts -> exists di0 cache0 w di1 cache1,
+        distribute_internal cfg thr g (elig (s_locks s) g) di0 cache0 = Ok (w, di1, cache1) /\
+        get_gauge (s_gauges s') (g_id g) = Some (match w with Some g' => g' | None => g end)) /\
+    (forall d, s_bank s' MODULE d - sum_rem (s_gauges s') d = s_bank s MODULE d - sum_rem (s_gauges s) d).
+Proof.
+  intros cfg thr s s' I H.
+  destruct (epoch_spec_plus _ _ _ _ I H) as (ups & acts & A1 & A2 & A3 & A4 & A5 & A6 & A7 & A8 & A9 & A10 & A11 & A12 & A13 & A14 & A15 & A16 & A17 & _).
+  exists ups, acts. repeat (split; [assumption|]). assumption.
 Qed.
 
 Lemma same_id_same_gauge : forall st g1 g2, NoDup (map g_id st) -> In g1 st -> In g2 st -> g_id g1 = g_id g2 -> g1 = g2.
@@ -447,10 +474,10 @@ Proof.
 Qed.
 
 Lemma create_gauge_inv : forall cfg s owner perp denom dur c start n s',
-  cfg_ok cfg -> Inv s -> owner <> MODULE -> pos_coins c -> 0 <= n < two64 ->
+  cfg_ok cfg -> Inv s -> owner <> MODULE -> pos_coins c -> sorted_coins c -> 0 <= n < two64 ->
   create_gauge cfg s owner perp denom dur c start n = Ok s' -> Inv s'.
 Proof.
-  intros cfg s owner perp denom dur c start n s' Hc I Ho Pc Hn H. unfold create_gauge in H.
+  intros cfg s owner perp denom dur c start n s' Hc I Ho Pc Sc Hn H. unfold create_gauge in H.
   destruct ((n =? 0) && negb perp) eqn:Z0; [discriminate|].
   destruct (negb (distributable cfg s c)); [discriminate|].
   destruct (negb (mem dur (cfg_lockable cfg))) eqn:Md; [discriminate|]. apply negb_false_iff, mem_in in Md.
@@ -466,7 +493,7 @@ Proof.
   { destruct (get_gauge (s_gauges s) id) eqn:G; auto. assert (in_range s id = true) by (apply Iids; congruence). congruence. }
   destruct (out_of_range_zero _ _ I Or) as (Z1 & Z2 & Z3).
   assert (Gok : gauge_ok g).
-  { unfold gauge_ok, g; cbn. repeat split; auto; [constructor|]. intros d. apply amount_of_nonneg, pos_nonneg; auto. }
+  { unfold gauge_ok, g; cbn. repeat split; auto; try constructor. intros d. apply amount_of_nonneg, pos_nonneg; auto. }
   constructor; cbn [s_gauges s_locks s_up s_act s_fin s_last_gauge s_bank]; auto.
   - apply set_gauge_Forall; auto.
   - apply set_gauge_Forall; auto. unfold g; cbn. unfold cfg_ok in Hc. rewrite Forall_forall in Hc. auto.
@@ -495,9 +522,9 @@ Proof.
 Qed.
 
 Lemma add_to_gauge_inv : forall cfg s owner c id s',
-  Inv s -> owner <> MODULE -> pos_coins c -> add_to_gauge cfg s owner c id = Ok s' -> Inv s'.
+  Inv s -> owner <> MODULE -> pos_coins c -> sorted_coins c -> add_to_gauge cfg s owner c id = Ok s' -> Inv s'.
 Proof.
-  intros cfg s owner c id s' I Ho Pc H. unfold add_to_gauge in H.
+  intros cfg s owner c id s' I Ho Pc Sc H. unfold add_to_gauge in H.
   destruct (negb (distributable cfg s c)); [discriminate|].
   destruct (get_gauge (s_gauges s) id) as [g|] eqn:G; [|discriminate].
   destruct (is_finished_gauge g (s_now s)); [discriminate|].
@@ -509,10 +536,11 @@ Proof.
   rewrite Forall_forall in Ig, Id, Ifill.
   assert (Gn : get_gauge (s_gauges s) (g_id g') <> None) by (cbn [g_id g']; rewrite Eid, G; discriminate).
   constructor; cbn [s_gauges s_locks s_up s_act s_fin s_last_gauge s_bank]; auto.
-  - apply set_gauge_Forall; [apply Forall_forall; auto|]. destruct (Ig g Hi) as (P1 & P2 & P3).
+  - apply set_gauge_Forall; [apply Forall_forall; auto|]. destruct (Ig g Hi) as (P1 & P2 & P3 & P4 & P5).
     unfold gauge_ok, g'; cbn. repeat split; auto.
     + apply pos_coins_add; auto. apply pos_nonneg; auto.
     + intros d. rewrite amount_of_coins_add. specialize (P3 d). pose proof (amount_of_nonneg c d (pos_nonneg _ Pc)). lia.
+    + apply coins_add_sorted; auto.
   - apply set_gauge_Forall; [apply Forall_forall; auto|]. unfold g'; cbn. auto.
   - intros x. rewrite get_set_gauge. cbn [g_id g']. unfold in_range in *; cbn [s_last_gauge]. destruct (g_id g =? x) eqn:E; [|apply Iids].
     apply Z.eqb_eq in E. subst x. rewrite <- Iids. rewrite Eid, G. split; discriminate.
@@ -532,11 +560,11 @@ Proof.
   - destruct (negb (valid_raw raw) || (n <? 0) || (two64 <=? n) || (u <? 0)) eqn:V; [discriminate|].
     repeat (apply orb_false_iff in V; destruct V as [V ?]). apply negb_false_iff in V.
     destruct (create_gauge cfg s u perp denom dur (mk_coins raw) start n) eqn:C; [|discriminate]. inversion H; subst.
-    eapply create_gauge_inv; eauto; [unfold MODULE; lia|apply mk_coins_pos; auto|lia].
+    eapply create_gauge_inv; eauto; [unfold MODULE; lia|apply mk_coins_pos; auto|apply mk_coins_sorted|lia].
   - destruct (negb (valid_raw raw) || (u <? 0)) eqn:V; [discriminate|].
     apply orb_false_iff in V; destruct V as [V ?]. apply negb_false_iff in V.
     destruct (add_to_gauge cfg s u (mk_coins raw) g) eqn:C; [|discriminate]. inversion H; subst.
-    eapply add_to_gauge_inv; eauto; [unfold MODULE; lia|apply mk_coins_pos; auto].
+    eapply add_to_gauge_inv; eauto; [unfold MODULE; lia|apply mk_coins_pos; auto|apply mk_coins_sorted].
   - unfold create_lock in H. destruct (amt <=? 0) eqn:A; [discriminate|]. inversion H; subst.
     apply with_locks_inv; auto. apply Forall_app. split; [apply (I_locks _ I)|]. constructor; [cbn; lia|constructor].
   - unfold add_to_lock in H. destruct (find_lock (s_locks s) id) as [l|] eqn:F; [|discriminate].
